@@ -138,16 +138,18 @@ class ANMLGrammar:
         boolean_expression = Forward()
         quantified_expression = Forward()
 
-        expression_list = Optional(Group(boolean_expression)) - ZeroOrMore(
-            Suppress(TK_COMMA) - Group(boolean_expression)
+        expression_list = Optional(Group(boolean_expression)) + ZeroOrMore(
+            Suppress(TK_COMMA) + Group(boolean_expression)
         )
+        # No error stop ("-") here: "exists(T v)" and "forall(T v)" start like a fluent reference, so the
+        # failure of this alternative must let the parser go on with the quantified expression
         fluent_ref = Group(
             identifier
-            - Group(
+            + Group(
                 Optional(
                     Suppress(TK_L_PARENTHESIS)
-                    - expression_list
-                    - Suppress(TK_R_PARENTHESIS)
+                    + expression_list
+                    + Suppress(TK_R_PARENTHESIS)
                 )
             )
         )
